@@ -93,7 +93,8 @@ def pairs_for(cell, P, Q2):
                     lq = {k: v for k, v in lq.items() if not k[0][0].startswith("heavy.") and ".Asy" not in k[0][0]}
                     out += _pairs(fq, lq, f"{HEAVY[h]}==light[{'duscbt'[h-1]*2}]:")
     elif rel == "fonllparts":
-        for flav in ("total", "light", HEAVY[cell["nf"] + 1]):
+        # every flavour, not only the one that is massive in this FONLL cell (an already massless quark has an empty 'massive' part)
+        for flav in ("total", "light", "charm", "bottom", "top"):
             full = _run(P, cell, Q2, flav, "full")
             ml = _run(P, cell, Q2, flav, "massless")
             mv = _run(P, cell, Q2, flav, "massive")
